@@ -187,7 +187,8 @@ PROPS["C09"] = dict(
 )
 
 PROPS["C13"] = dict(
-    level="proof", runs=[dict(bin="c13")],
+    level="proof", coq_targets=["C13/Properties", "C13/ExprProperties"],
+    runs=[dict(bin="c13"), dict(bin="c13e", quick=dict(n=3000, shards=16), thorough=dict(n=120000, shards=128))],
     quick=dict(n=700, shards=16),
     thorough=dict(n=40000, shards=128, run_timeout=3000, coq_case_timeout=3000),
     trusted_base=[
@@ -195,11 +196,18 @@ PROPS["C13"] = dict(
         "spargebra's parsing/translation is trusted: the algebra given to the model and the oracle is read back from the Debug rendering of the parsed query",
         "Dataset::quads_matching / graph_names contract (filter by matchers; inmem iteration order reproduced exactly for OFFSET/LIMIT cases); dataset iterator errors not modelled",
         "Term::eq modelled by structural equality after lower-casing language tags at the harness boundary",
-        "expression/function library (expression.rs, function.rs incl. EXISTS) is a parameter of every theorem; coq/C13/Eval.v is a concrete transcription for the generated forms only",
+        "algebra layer: the expression/function library (expression.rs, function.rs incl. EXISTS) is a parameter of every theorem of C13/Properties.v; coq/C13/Eval.v is a concrete transcription for the generated forms only",
+        "expression layer (C13/ExprProperties.v): coq/C13/ExprImpl.v is a hand transcription of expression.rs (every arm of eval except Exists), value.rs, value/_number.rs, function.rs (STR/LANG/DATATYPE/is*), stash.rs after the fix: commits 4f9580e..7c1f2b1, with switches for the pre-fix variants that the harness probes on the engine under test",
+        "ExprModel.v: SPARQL 1.1 section 17 + the XSD lexical mappings written from the Recommendations from memory (no network)",
+        "floats are abstract in the theorems (parameters of xlib); the model is RUN with Coq.Floats.SpecFloat at (24,128)/(53,1024), a shortest-round-trip printer and a correctly rounded reader, tied to Rust only by the generated cases",
+        "decimal division = bigdecimal 0.4 impl_division (100 digits), transcribed; BigDecimal + - * by value; xsd:dateTime reader for ordinary forms only (chrono not modelled)",
+        "independent oracle in c13e.rs over i128 and native IEEE floats; it cannot tell on about 1 % of cases (i128 overflow, non-terminating decimal quotients, sameTerm/STR of a computed number)",
+        "spargebra parsing trusted; expressions are generated fully parenthesised (spargebra 0.3.5 parses 2-3-4 as 2-(3-4))",
         "ORDER BY modelled as an arbitrary permutation (the order is C14)",
         "independent oracle in c13.rs: SPARQL 1.1 section 18 by nested loops plus a section 17 evaluator for the generated expression forms",
     ],
-    assumptions=["the dataset is a set of quads (NoDup)", "64-bit isize", "sort_unstable_by returns a permutation"],
+    assumptions=["the dataset is a set of quads (NoDup)", "64-bit isize", "sort_unstable_by returns a permutation",
+                 "expression layer: strings have fewer than 2^63 characters; a ResultTerm's cached value equals the value re-read from its term; the three operator extensions of sophia (= on distinct language-tagged strings is false, order of language-tagged strings, a valueless literal compared with itself) are admissible extensions in the sense of SPARQL 17.3.1; xsd:dateTime comparisons follow XSD 3.2.7.4 (no implicit timezone)"],
 )
 
 PROPS["C12"] = dict(
